@@ -1233,6 +1233,57 @@ def canon_model_production(lines: list[str], outs: list[str]) -> list[str]:
 	return res
 
 
+def stream_wiring(ctx: Ctx) -> Stream:
+	"""The generated statement lists (translator: ast of providers/app.py and entrypoints.py) against what really executes."""
+	from rogw.tranp.lang.module import to_fullyname
+	from translate import gen_di_wiring
+
+	st = Stream('di-wiring')
+	try:
+		t = gen_di_wiring.load()
+	except Exception as e:  # noqa: BLE001 - reported by run() as a broken translator; nothing to compare here
+		st.cases = 1
+		st.disagreements.append({'case': {'kind': 'wiring'}, 'op_index': 0, 'op': 'translate', 'real': f'{type(e).__name__}: {e}', 'model': 'no generated table', 'ops': []})
+		return st
+	name = {k: path for path, k in t['syms'].items()}
+	r = t['roles']
+	expect_head = [('bind', name[r['locator']]), ('bind', name[r['invoker']])]
+	expect_pre = [('resolve', name[k]) for k in r['pre']]
+	expect_tail = [('rebind', name[r['locator']]), ('rebind', name[r['invoker']]), ('bind', name[r['modulePath']]), ('resolve', name[r['entrypoint']])]
+	dep_paths = {name[k]: text for k, _, (_, text, _) in t['deps']}
+	log, shared = production_run(ctx, ctx.sub_rng('wiring'), 1, ctx.scale(2, 4))
+	ents = log.entries
+
+	def sig(e: Any) -> tuple[str, str]:
+		return (e[0], to_fullyname(getattr(e[2], '__origin__', e[2])))
+
+	def differ(what: str, real: Any, gen: Any) -> None:
+		st.disagreements.append({'case': {'kind': 'wiring', 'what': what}, 'op_index': 0, 'op': what, 'real': repr(real)[:600], 'model': repr(gen)[:600], 'ops': []})
+
+	st.cases += 1
+	head = [sig(e) for e in ents[1:3]] if len(ents) >= 3 and ents[0][0] == 'new' else None
+	if head != expect_head:
+		differ('di_container statements', head, expect_head)
+	for i, e in enumerate(ents):
+		if e[0] != 'combine':
+			continue
+		st.cases += 1
+		m = e[3]
+		pre = [sig(x) for x in ents[max(0, i - len(expect_pre)):i] if x[1] == shared.cid]
+		if pre != expect_pre:
+			differ(f'pre-resolves before combine -> c{m}', pre, expect_pre)
+		if dict(e[2]) != dep_paths:
+			differ(f'dependency definitions of c{m}', dict(e[2]), dep_paths)
+		tail = [sig(x) for x in ents[i + 1:i + 1 + len(expect_tail)] if x[1] == m]
+		if tail != expect_tail:
+			differ(f'statements after combine -> c{m}', tail, expect_tail)
+	st.distinct = st.cases
+	st.histogram = {'combines': st.cases - 1}
+	st.note = ('the op log of real module loads (logging subclass, nothing instrumented) against the GENERATED shapes: di_container = instantiate + bind Locator + bind Invoker; '
+		'every per-module container = pre-resolves in the shared one, combine with the generated dependency table, rebind Locator, rebind Invoker, bind ModulePath, resolve Entrypoint')
+	return st
+
+
 def stream_production(ctx: Ctx, w: World) -> Stream:
 	rng = ctx.sub_rng('production')
 	st = Stream('di-production')
@@ -1431,6 +1482,15 @@ STATEMENTS = {
 	'no_leak': 'a symbol a container does not know stays unknown to it (can_resolve False) whatever happens anywhere until it is bound there: module-local symbols never reach the shared container',
 	'invokerFactory_inj': 'closures over different containers are different factories',
 	'module_invoker_local': 'after the body of entrypoints.handler, Invoker resolved through the per-module container was made by the closure over that container (not the shared one), for every continuation that does not re-bind it',
+	'production_wiring': 'the GENERATED statement lists of di_container / handler (translator reads providers/app.py and providers/syntax/entrypoints.py with ast) are exactly the derived operations diContainerOps / loadModuleOps the isolation theorems speak about',
+	'production_closed': 'decide +kernel over the GENERATED tables (default_definitions, module_dependency_provider, each factory with its annotated parameters): every annotated parameter of every shared factory is bound in the shared container, of every per-module factory in a module container; per-module symbols and ModulePath are disjoint from the shared definitions',
+	'production_acyclic': 'the generated rank certificate is respected by every binding di_container and handler make (any heap, any shared container): the production dependency graph is acyclic',
+	'production_terminates': 'in every history made of di_container / handler blocks in any interleaving, resolve with more fuel than the longest production chain never yields RecursionError (fuel is not needed)',
+	'production_run_succeeds': 'decide +kernel: di_container(default_definitions()) and two handler calls succeed statement by statement in the model; afterwards every shared definition resolves in the shared container and every symbol in a module container',
+	'production_combine_shares': 'combine_shares on the shipped wiring: the three pre-resolved symbols are one object for the shared container and both module containers',
+	'production_locals_isolated': 'on the shipped wiring the shared container does not know Entry/Query/NodeResolver/Entrypoint/ModulePath, the two module containers hold different instances of each, Locator/Invoker of container k are the closures over k',
+	'production_no_private_copies': 'on the shipped wiring, after the loads, every instance a module container holds for a non-local symbol is the instance the shared container holds (production does not use late sharing)',
+	'invoke_sees_current_bindings': 'two reachable states with equal abstract state (bindings, instances, counter) react identically to every op whatever was invoked before: the annotation cache is invisible also under later bind/unbind',
 	'fuel_sufficient': 'fuel is only a device: if the bindings of the history respect a rank (acyclic factory graph), resolve/invoke with more fuel than the rank never yields RecursionError',
 }
 
@@ -1438,18 +1498,26 @@ STATEMENTS = {
 def build_cases(ctx: Ctx) -> tuple[World, list[Stream], list[SearchResult]]:
 	w = World(ctx)
 	with ctx.timed('correspondence'):
-		streams = [stream_di(ctx, w), stream_malformed(ctx, w), stream_production(ctx, w)]
+		streams = [stream_di(ctx, w), stream_malformed(ctx, w), stream_production(ctx, w), stream_wiring(ctx)]
 	with ctx.timed('search'):
 		searches = [search_reference(ctx, w), search_production(ctx)]
 	return w, streams, searches
 
 
 def run(ctx: Ctx) -> int:
+	translate_ok, translate_msg = True, ''
+	try:
+		from translate import gen_di_wiring
+		ctx.generated_tables.extend(gen_di_wiring.generate())
+	except Exception as e:  # noqa: BLE001 - a shape the translator does not understand breaks the tie, it is never passed over
+		translate_ok, translate_msg = False, f'gen_di_wiring: {type(e).__name__}: {e}'
 	proof = common.prove(ctx, PROP, leanchecker=ctx.thorough)
 	_, streams, searches = build_cases(ctx)
 	return common.finish(ctx, proof, streams, searches,
+		translate_ok=translate_ok, translate_msg=translate_msg,
 		statements=STATEMENTS,
 		partial={
+			'generated': 'Generated/DIWiring.lean is rewritten from app/config.py + providers/app.py + providers/syntax/entrypoints.py on every run (tables evaluated by import, statement shapes by ast; unknown shapes raise TranslateError = broken tie); production_* theorems are decide +kernel over it; the real op log of the production stream is compared with the generated handler/di_container shapes',
 			'usage': 'derived operations di_container / per-module load (Model: diContainerOps, loadModuleOps) with isolation theorems; production op logs replayed on the model (stream di-production) and the isolation laws checked on the real containers (search production laws)',
 			'proved': 'refinement concrete dictionaries -> Spec for every op sequence; singleton per binding generation; rebind discards the instance; combine: right operand wins (bindings, instances, unresolved definitions); frame (operands of combine/clone are unaffected); lazy materialisation is per clone; unknown symbol -> ValueError; the invoke law (fill leading resolvable annotated parameters, validate the rest on every call)',
 			'regression': 'the five defects of the snapshot tree (repaired by c3fd82c / 6d5a231) are corpus cases of the stream and OFF-switches of the reference: their return is reported under the old finding keys with the op sequence',
